@@ -78,8 +78,8 @@ struct Op {
   // when set and true, the documentation does not pin the result down for C16 (see note at linear_combine):
   // the lineages are then only compared with each other
   std::function<bool(const RE&, const RE&)> unspec;
-  long lax_c1, lax_c2; int rs, re; bool is_lax;
-  Op() : builder(false), swaps(false), lax_c1(1), lax_c2(1), rs(-1), re(-1), is_lax(false) {}
+  long lax_c1, lax_c2; int rs, re; bool is_lax; int trunc_dim;
+  Op() : builder(false), swaps(false), lax_c1(1), lax_c2(1), rs(-1), re(-1), is_lax(false), trunc_dim(-1) {}
 };
 static std::vector<Op> OPS;
 static void add(const std::string& name, const std::string& site, bool builder,
@@ -196,8 +196,10 @@ static void build_ops() {
   for (int n = 0; n <= MAXDIM; ++n) {
     add("e1.set_space_dimension(" + zs(n) + ")", "set_space_dimension", n == 2 || n == 3, always, [n](LE& x, LE&) { x.set_space_dimension(n); }, [n](RE& a, RE&) { a.c.resize(n + 1, Z(0)); });
     add("e1 = Linear_Expression(e1," + zs(n) + ")", "Linear_Expression(e,space_dim)", false, always, [n](LE& x, LE&) { LE t(x, (dim_t)n); x.m_swap(t); }, [n](RE& a, RE&) { a.c.resize(n + 1, Z(0)); });
-    for (int r = 0; r < 2; ++r)
+    for (int r = 0; r < 2; ++r) {
       add("e1 = Linear_Expression(e1," + zs(n) + "," + (r ? "SPARSE" : "DENSE") + ")", "Linear_Expression(e,space_dim,r)", false, always, [n, r](LE& x, LE&) { LE t(x, (dim_t)n, r ? SPARSE : DENSE); x.m_swap(t); }, [n](RE& a, RE&) { a.c.resize(n + 1, Z(0)); });
+      if (r) OPS.back().trunc_dim = n;
+    }
   }
   for (int mask = 0; mask < (1 << MAXDIM); ++mask) {
     std::string nm; for (int v = 0; v < MAXDIM; ++v) if (mask & (1 << v)) nm += VN[v];
@@ -359,6 +361,20 @@ static std::string diff_expr(const LE& x, const RE& r) {
   if ((int)x.space_dimension() != r.dim()) return "value:space_dimension";
   if (x.inhomogeneous_term() != r.c[0]) return "value:inhomogeneous_term";
   for (int v = 0; v < r.dim(); ++v) if (x.coefficient(Var(v)) != r.c[v + 1]) return "value:coefficient";
+  // iteration must show exactly the non-zero homogeneous coefficients, in order
+  {
+    int v = 0;
+    for (LE::const_iterator i = x.begin(), e = x.end(); i != e; ++i) {
+      while (v < r.dim() && r.c[v + 1] == 0) ++v;
+      if (v >= r.dim() || (int)i.variable().id() != v || *i != r.c[v + 1]) return "iteration:!=reference";
+      ++v;
+    }
+    while (v < r.dim() && r.c[v + 1] == 0) ++v;
+    if (v < r.dim()) return "iteration:!=reference";
+  }
+  // the row behind a sparse expression must itself be a valid row (reads only)
+  typedef PPL::Linear_Expression_Impl<PPL::Sparse_Row> SI;
+  if (const SI* p = dynamic_cast<const SI*>(x.impl)) if (!p->row.OK() || !p->row.tree.OK()) return "invariant:Sparse_Row::OK()";
   return "";
 }
 
@@ -368,7 +384,9 @@ static std::string trigger_for(const Op& op, const LE& x0, const LE& y0, const R
     int s = op.rs < 0 ? 0 : op.rs, e = op.rs < 0 ? b.dim() + 1 : op.re;
     for (int i = s; i < e; ++i) if (b.c[i] == 0) return "sparse_receiver_dense_operand_c1_zero_and_operand_has_zero_coefficient_in_range";
   }
-  (void)a;
+  if (op.trunc_dim >= 0 && x0.representation() == DENSE && op.trunc_dim < a.dim()) {
+    for (int i = op.trunc_dim + 1; i <= a.dim(); ++i) if (a.c[i] != 0) return "dense_source_sparse_copy_smaller_dimension_and_nonzero_coefficient_beyond_it";
+  }
   return "none";
 }
 static RE read_values(const LE& x) { RE r; r.c.assign(x.space_dimension() + 1, Z(0)); r.c[0] = x.inhomogeneous_term(); for (dim_t v = 0; v < x.space_dimension(); ++v) r.c[v + 1] = x.coefficient(Var(v)); return r; }
@@ -394,7 +412,11 @@ static void run_all(const Op& op, const State& s, RE& ra, RE& rb, Res res[4]) {
       if (!d.empty()) { r.obs = le_values(*r.x); r.clause = d; }
       else { d = diff_expr(*r.y, rb); if (!d.empty()) { r.obs = "e2 = " + le_values(*r.y); r.clause = (op.swaps ? "" : "const-operand-changed:") + d; } }
     }
-    if (!r.clause.empty()) { r.trig = trigger_for(op, *s.e[l][0], *s.e[l][1], s.a, s.b); r.clause += " (" + lin_name(*s.e[l][0], *s.e[l][1]) + ")"; }
+    if (!r.clause.empty()) {
+      r.trig = trigger_for(op, *s.e[l][0], *s.e[l][1], s.a, s.b);
+      bool binary = op.name.find("e2") != std::string::npos;
+      r.clause += " (" + (binary ? lin_name(*s.e[l][0], *s.e[l][1]) : std::string("e1 ") + repn(s.e[l][0]->representation())) + ")";
+    }
   }
 }
 
@@ -487,6 +509,56 @@ static void work_on(int si, long long sub_start) {
   count(CNT_STATES);
 }
 
+// --replay: re-execute one recorded case in the four lineages and print both sides
+static RE parse_re(const std::string& t, size_t from) {
+  size_t a = t.find('[', from), b = t.find(']', a);
+  RE r; r.c.clear();
+  std::istringstream is(t.substr(a + 1, b - a - 1)); std::string tok;
+  while (std::getline(is, tok, ',')) r.c.push_back(Z(tok));
+  return r;
+}
+static int replay(const std::string& text) {
+  size_t hp = text.find("\"history\"");
+  if (hp == std::string::npos) { printf("no history in replay file\n"); return 2; }
+  size_t a = text.find('[', hp), p = a + 1;
+  std::vector<std::string> items;
+  while (true) {                                   // the strings of the history array (no escaped quotes inside)
+    size_t q1 = text.find('"', p), close = text.find(']', p);
+    // a ']' inside a string belongs to an expression text: skip strings first
+    if (q1 == std::string::npos || (close != std::string::npos && close < q1)) break;
+    size_t q2 = text.find('"', q1 + 1);
+    items.push_back(text.substr(q1 + 1, q2 - q1 - 1));
+    p = q2 + 1;
+  }
+  std::string opname; size_t op = text.find("\"op\"");
+  if (op != std::string::npos) { size_t q1 = text.find('"', text.find(':', op)), q2 = text.find('"', q1 + 1); opname = text.substr(q1 + 1, q2 - q1 - 1); }
+  if (items.empty() || items[0].find("initial:") != 0) { printf("cannot parse history\n"); return 2; }
+  State s; s.a = parse_re(items[0], items[0].find("e1 =")); s.b = parse_re(items[0], items[0].find("e2 ="));
+  for (int l = 0; l < 4; ++l) { s.e[l][0].reset(new LE(build(s.a, LREP[l][0]))); s.e[l][1].reset(new LE(build(s.b, LREP[l][1]))); }
+  printf("%s\n", items[0].c_str());
+  std::vector<std::string> todo(items.begin() + 1, items.end());
+  todo.push_back(opname);
+  for (size_t i = 0; i < todo.size(); ++i) {
+    const Op* o = 0; for (size_t k = 0; k < OPS.size(); ++k) if (OPS[k].name == todo[i]) o = &OPS[k];
+    if (!o) {
+      const Query* q = 0; for (size_t k = 0; k < QS.size(); ++k) if (QS[k].name == todo[i]) q = &QS[k];
+      if (!q) { printf("unknown step '%s'\n", todo[i].c_str()); return 2; }
+      printf("query %s: reference %s\n", q->name.c_str(), q->ref ? q->ref(s.a, s.b).c_str() : "(dense text)");
+      for (int l = 0; l < 4; ++l) printf("   %-28s -> %s\n", lin_name(*s.e[l][0], *s.e[l][1]).c_str(), q->impl(*s.e[l][0], *s.e[l][1]).c_str());
+      continue;
+    }
+    RE ra, rb; Res res[4];
+    run_all(*o, s, ra, rb, res);
+    printf("%s: reference e1 = %s, e2 = %s\n", o->name.c_str(), ra.str().c_str(), rb.str().c_str());
+    for (int l = 0; l < 4; ++l) {
+      printf("   %-28s -> e1 = %s%s%s\n", lin_name(*s.e[l][0], *s.e[l][1]).c_str(), le_values(*res[l].x).c_str(), res[l].clause.empty() ? "" : "   VIOLATION ", res[l].clause.c_str());
+      s.e[l][0].swap(res[l].x); s.e[l][1].swap(res[l].y);
+    }
+    s.a = ra; s.b = rb;
+  }
+  return 0;
+}
+
 int main(int argc, char** argv) {
   ARGS = parse_args(argc, argv);
   sink().open(ARGS.out);
@@ -495,6 +567,7 @@ int main(int argc, char** argv) {
   if (MAXDIM < 2 || MAXDIM > 6) { sink().line(J().str("t", "error").str("msg", "--maxdim out of range").done()); return 2; }
   double t0 = now_s();
   build_ops(); build_queries();
+  if (!ARGS.replay.empty()) { std::ifstream in(ARGS.replay.c_str()); std::string t((std::istreambuf_iterator<char>(in)), std::istreambuf_iterator<char>()); return replay(t); }
   INIT = {
     { mkre({0}), mkre({0}) },
     { mkre({1, 1}), mkre({0, 0, 1}) },
